@@ -82,7 +82,7 @@ Theorem C13_delete_removes_named : forall ops X expr e,
 Proof. exact delete_removes_named. Qed.
 Print Assumptions C13_delete_removes_named.
 
-(* Full statement (FALSE for the code, see the two refutations below):
+(* Full statement (FALSE for the code, see C13_delete_cross_org_refuted below):
      after Delete X expr the stored events are exactly the previous ones minus those
      of org X in the deleted indexes.
    Proved with the exact guard: no other organisation holds events in an index with one
@@ -114,15 +114,91 @@ Theorem C13_delete_cross_org_refuted :
 Proof. exact delete_cross_org_refuted. Qed.
 Print Assumptions C13_delete_cross_org_refuted.
 
-(* CONFIRMED on the real code: delete, ingest again in the same process, delete again:
-   the second delete answers 404 and the events stay searchable. *)
-Theorem C13_delete_recreated_refuted :
+(* delete-index of a plain, non-alias name removes every event of (X, t) whatever happened before —
+   in particular after "delete, ingest again in the same process" (full strength since
+   fixes/C13-delete-forgets-index-name; before, the second delete answered 404, see the pre-fix section).
+   It rests on the invariant that every index holding events is listed for its org. *)
+Theorem C13_stored_index_is_listed : forall ops e,
+  In e (evs (run ops)) -> has_tab (ftabs (run ops)) (e_org e) (e_tab e) = true.
+Proof. exact stored_index_is_listed. Qed.
+Print Assumptions C13_stored_index_is_listed.
+
+Theorem C13_delete_plain_removes_all : forall ops X t e,
+  plain t = true -> name_eqb t n_traces = false -> alias_present (run ops) X t = false ->
+  In e (evs (run (ops ++ [Delete X t]))) -> ~ (e_org e = X /\ e_tab e = t).
+Proof. exact delete_plain_removes_all. Qed.
+Print Assumptions C13_delete_plain_removes_all.
+
+(* the column listing shows only columns of stored events of X in the expansion: nothing of a deleted
+   index is left in it (full strength since fixes/C13-delete-clears-unrotated-info) *)
+Theorem C13_columns_only_of_stored_events : forall ops X expr p,
+  In p (q_pairs (run ops) X expr) ->
+  exists e, In e (evs (run ops)) /\ p = (e_org e, e_tab e) /\ e_org e = X /\
+            In (e_tab e) (expand (run ops) X false expr).
+Proof. exact columns_only_of_stored_events. Qed.
+Print Assumptions C13_columns_only_of_stored_events.
+
+(* alias persistence (full strength since fixes/C13-alias-files-per-index): for ALL op sequences of all orgs
+   the alias files and the in-memory map hold the same relation, and what an alias resolves to is the same
+   before and after a graceful restart — for org 0 and every other org. *)
+Theorem C13_alias_files_agree_with_memory : forall ops X a t,
+  In (X, a, t) (amem (run ops)) <->
+  (In (X, t, a) (afile (run ops)) /\ is_empty a = false /\ is_empty t = false).
+Proof. exact alias_sync_run. Qed.
+Print Assumptions C13_alias_files_agree_with_memory.
+
+Theorem C13_aliases_survive_restart : forall ops X a t,
+  In t (alias_targets (run (ops ++ [Restart])) X a) <-> In t (alias_targets (run ops) X a).
+Proof. exact aliases_survive_restart_run. Qed.
+Print Assumptions C13_aliases_survive_restart.
+
+(* ---- PRE-FIX documentation (about [run_prefix] / [step_prefix]: delete-index and restart as they were
+   before the three repairs; no longer the code; the harness keeps the generator streams, a regression is
+   reported with the class named in known/C13.json) ---- *)
+(* delete, ingest again in the same process, delete again: 404 and the events stayed *)
+Theorem C13_prefix_delete_recreated_refuted :
   exists ops X t e,
     plain t = true /\ e_org e = X /\ e_tab e = t /\
-    In e (evs (run (ops ++ [Delete X t]))) /\
-    snd (step (run ops) (Delete X t)) = OCode 404.
-Proof. exact delete_recreated_refuted. Qed.
-Print Assumptions C13_delete_recreated_refuted.
+    In e (evs (run_prefix (ops ++ [Delete X t]))) /\
+    snd (step_prefix (run_prefix ops) (Delete X t)) = OCode 404.
+Proof. exact prefix_delete_recreated_refuted. Qed.
+Print Assumptions C13_prefix_delete_recreated_refuted.
+
+(* the column listing still showed an index deleted while it had unrotated data *)
+Theorem C13_prefix_delete_left_columns_refuted :
+  exists ops X t,
+    plain t = true /\
+    (forall e, In e (evs (run_prefix ops)) -> e_tab e <> t) /\
+    In (X, t) (q_pairs (run_prefix ops) X t).
+Proof. exact prefix_delete_left_columns_refuted. Qed.
+Print Assumptions C13_prefix_delete_left_columns_refuted.
+
+(* org 0's alias did not survive a graceful restart *)
+Theorem C13_prefix_alias_lost_after_restart_refuted :
+  exists ops X a t,
+    In t (alias_targets (run_prefix ops) X a) /\ alias_targets (run_prefix (ops ++ [Restart])) X a = [].
+Proof. exact prefix_alias_lost_after_restart_refuted. Qed.
+Print Assumptions C13_prefix_alias_lost_after_restart_refuted.
+
+(* org 1 (alias directory present), alias ab -> a: after the restart the index name a resolved to ab *)
+Theorem C13_prefix_alias_reversed_after_restart_refuted :
+  exists ops X a t,
+    alias_targets (run_prefix ops) X t = [] /\ In a (alias_targets (run_prefix (ops ++ [Restart])) X t).
+Proof. exact prefix_alias_reversed_after_restart_refuted. Qed.
+Print Assumptions C13_prefix_alias_reversed_after_restart_refuted.
+
+(* the same histories under the fixed code *)
+Example C13_fixed_recreated_delete_works :
+  let ops := [Ingest 0 w_a [1]; Delete 0 w_a; Ingest 0 w_a [2]] in
+  snd (step (run ops) (Delete 0 w_a)) = OCode 200 /\ evs (run (ops ++ [Delete 0 w_a])) = [].
+Proof. exact fixed_recreated_delete_works. Qed.
+Example C13_fixed_alias_survives_restart :
+  let ops := [Ingest 0 w_a [1]; AddAlias 0 w_a w_al; Restart] in alias_targets (run ops) 0 w_al = [w_a].
+Proof. exact fixed_alias_survives_restart. Qed.
+Example C13_fixed_alias_not_reversed :
+  let ops := [MkAliasDir 1; Ingest 1 w_a [1]; Ingest 1 w_ab [2]; AddAlias 1 w_a w_ab; Restart] in
+  alias_targets (run ops) 1 w_ab = [w_a] /\ alias_targets (run ops) 1 w_a = [].
+Proof. exact fixed_alias_not_reversed. Qed.
 
 Example C13_delete_guard_satisfiable :
   let ops := [Ingest 0 w_a [1]; Ingest 1 w_aXb1 [2]] in
